@@ -1,5 +1,5 @@
 import Pyrtma.Drv.Util
-import Pyrtma.Spec.Validators
+import Pyrtma.Spec.ValidatorsExt
 /-! Line-protocol driver for M4 (grammar: harness/valid_corr.py). -/
 namespace Pyrtma.Drv.Validators
 open Pyrtma.Validators Pyrtma.Drv
@@ -89,6 +89,64 @@ def showErr : PyErr → String
   | .typeError => "TypeError" | .valueError => "ValueError" | .overflowError => "OverflowError"
   | .indexError => "IndexError" | .attributeError => "AttributeError"
 
+def showScalar : Scalar → String
+  | .int n => s!"i:{n}"
+  | .bool b => if b then "b:1" else "b:0"
+  | .flt b => s!"f:{b}"
+  | .str cs => "s:" ++ String.intercalate "." (cs.map toString)
+  | .bytes bs => "y:" ++ showHex bs
+  | .other => "o"
+  | .cdata _ raw => "c:" ++ showHex raw
+  | .strct t raw => s!"t:{t}:" ++ showHex raw
+
+/-! the clauses of `RoundHyp` (Proofs/ValidatorsFloat.lean) evaluated at the operands of one case: the hypotheses
+the float theorems rest on are about the opaque `roundMag`; here the compiled body is held against them -/
+def hypAtDouble (d : Nat) : List (String × Bool) :=
+  match decodeMag fmt64 (d % 2 ^ 63) with
+  | .fin m e =>
+    let r := roundMag fmt32 m e
+    [("nearest32", decide (r ≥ fmt32.infPat) || isNearestMag fmt32 (scaled m e) r),
+     ("overflow32", !overflowsMag fmt32 (scaled m e) || decide (r ≥ fmt32.infPat))]
+  | _ => []
+
+def hypAtInt (n : Int) : List (String × Bool) :=
+  let a := n.natAbs
+  let r := roundMag fmt64 a 0
+  [("nearest64", decide (r ≥ fmt64.infPat) || isNearestMag fmt64 (scaled a 0) r),
+   ("overflow64", !overflowsMag fmt64 (scaled a 0) || decide (r ≥ fmt64.infPat))] ++
+  (if a ≤ 2 ^ 53 then [("intExact", decide (r < fmt64.infPat) && magValue fmt64 r == scaled a 0)]
+   else if r < fmt64.infPat then
+     (match decodeMag fmt64 r with
+      | .fin m e => [("bigIntNarrow", decide (roundMag fmt32 m e ≥ fmt32.infPat) || !overflowsMag fmt32 (scaled a 0))]
+      | _ => [])
+   else []) ++
+  (match ofInt n with | some d => hypAtDouble d | none => [])
+
+def hypAtF32 (p : Nat) : List (String × Bool) :=
+  if p % 2 ^ 31 < fmt32.infPat then
+    match decodeMag fmt32 (p % 2 ^ 31) with
+    | .fin m e =>
+      let r := roundMag fmt64 m e
+      [("widenExact", decide (r < fmt64.infPat) && magValue fmt64 r == scaled m e)]
+    | _ => []
+  else []
+
+def hypAtScalar : Scalar → List (String × Bool)
+  | .flt b => hypAtDouble b
+  | .int n => hypAtInt n
+  | .bool t => hypAtInt (if t then 1 else 0)
+  | _ => []
+
+def hypAtCase (ty : FTy) (v : PyVal) (post : Bytes) : List (String × Bool) :=
+  match ty.vk with
+  | .flt k =>
+    let xs : List Scalar := match v with | .sc s => [s] | _ => (match items v with | .ok l => l | .error _ => [])
+    xs.flatMap hypAtScalar ++
+    (match k with
+     | .f32 => (chunks 4 (post.length / 4) post).flatMap fun c => hypAtF32 (fromLE c)
+     | .f64 => [])
+  | _ => []
+
 structure Case where
   id : String := ""
   en : Bool := true
@@ -100,6 +158,17 @@ structure Case where
   obs : List String := []
   out : Bool := false
   rb : List Scalar := []
+  /-- the whole top-level message: offset of the field, bytes before, bytes after (`MSG` line) -/
+  moff : Option Nat := none
+  mpre : Bytes := []
+  mpost : Bytes := []
+  -- program cases (`PROG`): statements parsed so far (a stack of open blocks), the implementation's records
+  isProg : Bool := false
+  init : Bytes := []
+  pstack : List (String × List Stmt) := [("top", [])]
+  precs : List (ProgObs × Bool × String) := []     -- observation, context variable at that moment, exception class
+  pflag : Bool := true
+  pfinal : Bytes := []
   -- context-manager cases
   isCtx : Bool := false
   evs : List CtxEv := []
@@ -116,14 +185,51 @@ def finishSet (c : Case) : List String :=
   let i := joinSp c.obs ++ " " ++ showHex c.post
   let corr := if m == i then s!"{c.id} CORR ok" else s!"{c.id} CORR diff model=[{m}] impl=[{i}]"
   let raised := c.obs.head? != some "ok"
+  -- "some byte outside the field changed": computed here from the whole message when it crossed (`MSG`), else the
+  -- harness's word for it (`OUT`)
+  let outside :=
+    c.out || (match c.moff with
+      | none => false
+      | some off => c.mpre.take off != c.mpost.take off ||
+                    c.mpre.drop (off + c.ty.size) != c.mpost.drop (off + c.ty.size) ||
+                    c.mpre.length != c.mpost.length)
   let prop :=
     if !c.en then "skip"
     else match firstFalse (clauses c.ty c.key c.val
-        { pre := c.pre, post := c.post, raised := raised, outsideChanged := c.out, rb := c.rb }) with
+        { pre := c.pre, post := c.post, raised := raised, outsideChanged := outside, rb := c.rb }) with
       | some cl => "fail " ++ cl
       | none => "ok"
   let tag := (if inDom c.ty c.key c.val then "dom" else "bad") ++ (if raised then "-refused" else "-accepted")
-  [corr, s!"{c.id} PROP C09 {prop}", s!"{c.id} PROP TAG {tag}"]
+  -- projection `readField`: the model's `__get__` / `__getitem__` on the bytes the implementation left behind
+  let rbm := readField c.ty c.key c.post
+  let sameRb := rbm.length == c.rb.length && (rbm.zip c.rb).all fun p => sameRead p.1 p.2
+  let corrRb :=
+    if raised || sameRb then [] else
+      [s!"{c.id} CORR diff [readField] model=[{joinSp (rbm.map showScalar)}] impl=[{joinSp (c.rb.map showScalar)}]"]
+  -- projection `message`: the assignment seen from the whole top-level object (`setAt`)
+  let corrMsg :=
+    match c.moff with
+    | none => []
+    | some off =>
+      let r := setAt c.en c.mpre off c.ty c.key c.val
+      if r.1 == c.mpost then [] else
+        [s!"{c.id} CORR diff [message] off={off} model=[{showHex r.1}] impl=[{showHex c.mpost}]"]
+  -- projection `canon`: `get (set x v) = canon v` on the implementation's read-back (non-float kinds)
+  let corrCanon :=
+    if raised || !c.en || !inDom c.ty c.key c.val then [] else
+      match canonVal c.ty c.key c.val with
+      | none => []
+      | some l =>
+        if l == c.rb then [] else
+          [s!"{c.id} CORR diff [canon] canon=[{joinSp (l.map showScalar)}] impl=[{joinSp (c.rb.map showScalar)}]"]
+  -- projection `roundHyp`: the named hypotheses about the rounding function, at this case's operands
+  let corrHyp :=
+    match firstFalse (hypAtCase c.ty c.val c.post) with
+    | some h => [s!"{c.id} CORR diff [roundHyp] hypothesis {h} of RoundHyp is false at an operand of this case"]
+    | none => []
+  let nHyp := (hypAtCase c.ty c.val c.post).length
+  [corr] ++ corrRb ++ corrMsg ++ corrCanon ++ corrHyp ++
+    [s!"{c.id} PROP C09 {prop}", s!"{c.id} PROP TAG {tag}"] ++ (if nHyp > 0 then [s!"{c.id} PROP HYPS {nHyp}"] else [])
 
 def showFlags (l : List Bool) : String := joinSp (l.map fun b => if b then "1" else "0")
 
@@ -134,11 +240,95 @@ def finishCtx (c : Case) : List String :=
   let prop := if ctxOk c.evs c.flags then "ok" else "fail validation_in_force_outside_disable_blocks"
   [corr, s!"{c.id} PROP C09 {prop}"]
 
+/-- split a token list at the ";" separators -/
+def splitSemi (ts : List String) : List (List String) :=
+  let r := ts.foldl (fun (acc : List (List String) × List String) t =>
+    if t == ";" then (acc.2.reverse :: acc.1, []) else (acc.1, t :: acc.2)) ([], [])
+  (r.2.reverse :: r.1).reverse
+
+def viaOf (s : String) : Via := if s == "f" then .fresh else .view (natOf (s.drop 1).toString)
+
+/-- push a finished statement onto the innermost open block -/
+def pushStmt (st : Stmt) : List (String × List Stmt) → List (String × List Stmt)
+  | [] => [("top", [st])]
+  | (k, l) :: rest => (k, st :: l) :: rest
+
+def progStep (c : Case) (r : List String) : Case :=
+  match r with
+  | "bind" :: i :: off :: ";" :: fty => { c with pstack := pushStmt (.bind (natOf i) ⟨natOf off, ftyOf fty⟩) c.pstack }
+  | "assign" :: via :: off :: ";" :: rest =>
+    (match splitSemi rest with
+     | [fty, key, val] =>
+       { c with pstack := pushStmt (.assign (viaOf via) ⟨natOf off, ftyOf fty⟩ (keyOf key) (valOf val)) c.pstack }
+     | _ => c)
+  | ["block", ig] => { c with pstack := ("block" ++ ig, []) :: c.pstack }
+  | ["try"] => { c with pstack := ("try", []) :: c.pstack }
+  | ["raise"] => { c with pstack := pushStmt .raise c.pstack }
+  | ["end"] =>
+    (match c.pstack with
+     | (k, body) :: rest =>
+       let st : Stmt := if k == "try" then .tryCatch body.reverse else .block (k == "block1") body.reverse
+       { c with pstack := pushStmt st rest }
+     | [] => c)
+  | _ => c
+
+def recOf (r : List String) : Option (ProgObs × Bool × String) :=
+  match r with
+  | depth :: fl :: off :: ";" :: rest =>
+    (match splitSemi rest with
+     | [fty, key, val, obs, [pre], [post], rb] =>
+       let raised := obs.head? != some "ok"
+       some ({ depth := natOf depth, loc := ⟨natOf off, ftyOf fty⟩, key := keyOf key, val := valOf val,
+               pre := hexBytes pre, post := hexBytes post, raised := raised, rb := rb.map scalarOf },
+             fl == "1", joinSp obs)
+     | _ => none)
+  | _ => none
+
+def finishProg (c : Case) : List String :=
+  let prog : List Stmt := match c.pstack.getLast? with | some (_, l) => l.reverse | none => []
+  let run := execList 0 { msg := c.init } prog
+  let mrecs := run.1.log.reverse
+  let showM (r : AssignRec) : String :=
+    s!"d{r.depth} f{if r.flag then 1 else 0} @{r.loc.off} " ++
+      (match r.err with | none => "ok" | some e => "err " ++ showErr e) ++ " " ++ showHex r.post
+  let showI (o : ProgObs × Bool × String) : String :=
+    s!"d{o.1.depth} f{if o.2.1 then 1 else 0} @{o.1.loc.off} {o.2.2} {showHex o.1.post}"
+  let ms := mrecs.map showM
+  let is := c.precs.reverse.map showI
+  let firstDiff := ((ms.zip is).zipIdx.find? fun p => p.1.1 != p.1.2)
+  let corr :=
+    match firstDiff with
+    | some ((m, i), k) => s!"{c.id} CORR diff [program] record {k}: model=[{m}] impl=[{i}]"
+    | none =>
+      if ms.length != is.length then
+        s!"{c.id} CORR diff [program] model executed {ms.length} assignments, implementation {is.length}"
+      else if run.1.flag != c.pflag then
+        s!"{c.id} CORR diff [program] final flag model={run.1.flag} impl={c.pflag}"
+      else if run.1.msg != c.pfinal then
+        s!"{c.id} CORR diff [program] final message model=[{showHex run.1.msg}] impl=[{showHex c.pfinal}]"
+      else s!"{c.id} CORR ok"
+  -- the Spec on what the implementation did
+  let obs := c.precs.reverse.map (·.1)
+  let bad := (obs.zipIdx.findSome? fun p =>
+    (firstFalse (progClauses p.1)).map fun cl => s!"validation_in_force_outside_disable_blocks record {p.2} {cl}")
+  let prop :=
+    match bad with
+    | some b => "fail " ++ b
+    | none => if c.pflag then "ok" else "fail validation_restored_after_program"
+  let nOut := (obs.filter fun o => o.depth == 0).length
+  [corr, s!"{c.id} PROP C09 {prop}", s!"{c.id} PROP TAG outside={nOut} inside={obs.length - nOut}"]
+
 def step (st : Case × List String) (line : String) : Case × List String :=
   let (c, out) := st
   match toks line with
   | ["CASE", id, en] => ({ id := id, en := en == "1" }, out)
   | ["CTX", id] => ({ id := id, isCtx := true }, out)
+  | ["PROG", id] => ({ id := id, isProg := true }, out)
+  | ["INIT", h] => ({ c with init := hexBytes h }, out)
+  | "PS" :: r => (progStep c r, out)
+  | "PR" :: r => ({ c with precs := match recOf r with | some x => x :: c.precs | none => c.precs }, out)
+  | ["FLAG", b] => ({ c with pflag := b == "1" }, out)
+  | ["FINAL", h] => ({ c with pfinal := hexBytes h }, out)
   | "FT" :: r => ({ c with ty := ftyOf r }, out)
   | "KEY" :: r => ({ c with key := keyOf r }, out)
   | "VAL" :: r => ({ c with val := valOf r }, out)
@@ -147,9 +337,10 @@ def step (st : Case × List String) (line : String) : Case × List String :=
   | "OBS" :: r => ({ c with obs := r }, out)
   | ["OUT", b] => ({ c with out := b == "1" }, out)
   | "RB" :: r => ({ c with rb := r.map scalarOf }, out)
+  | ["MSG", off, pre, post] => ({ c with moff := some (natOf off), mpre := hexBytes pre, mpost := hexBytes post }, out)
   | "EV" :: r => ({ c with evs := r.map evOf }, out)
   | "FLAGS" :: r => ({ c with flags := r.map (· == "1") }, out)
-  | ["END"] => ({}, out ++ (if c.isCtx then finishCtx c else finishSet c))
+  | ["END"] => ({}, out ++ (if c.isCtx then finishCtx c else if c.isProg then finishProg c else finishSet c))
   | _ => (c, out)
 
 def main : IO Unit := do
